@@ -77,7 +77,7 @@ class OracleTracker(Monitor):
                     a.task_done = True
         else:
             tstatus = status
-        if env.orc_stopped or act.due is None:
+        if act.due is None:
             env.orc.executed.append(act.task)
             return
         ok = tstatus == S.SUCCEEDED
@@ -98,8 +98,13 @@ class OracleTracker(Monitor):
             env.orc.executed.append(act.task)
             env.orc_stopped = True
             return
+        # after a failure the definition prescribes no further scheduling, but completions of
+        # still-running actions are followed so that documented clean-up tasks are known
         new = env.orc.complete(act.task, act.due.ctx, ok, bits, tokens)
-        env.due.extend(new)
+        if not env.orc_stopped:
+            env.due.extend(new)
+        else:
+            env.due.extend(d for d in new if d.task in env.orc.cleanup)
         if env.orc.failed:
             env.orc_stopped = True
 
@@ -223,3 +228,131 @@ class C03Quiescence(Monitor):
             pending_offer = env.c.get_next_tasks()
             if not pending_offer:
                 self.fail(env, "active-idle", "C03 workflow reports %s with no action in flight and no task on offer" % st, status=st)
+
+
+class C04Terminal(Monitor):
+    """Once failed/canceled/succeeded: no offers except documented clean-up tasks, status
+    constant (succeeded may become failed when output rendering fails), late reports
+    absorbed, rejected requests leave the persisted form untouched."""
+
+    prop = "C04"
+
+    def on_start(self, env):
+        env.terminal = None
+
+    def after_call(self, env, name):
+        st = env.status()
+        if env.terminal is None:
+            if st in (S.SUCCEEDED, S.FAILED, S.CANCELED):
+                env.terminal = st
+                env.terminal_at = len(env.log)
+            return
+        count(env, "c04_after_terminal")
+        if st != env.terminal:
+            if env.terminal == S.SUCCEEDED and st == S.FAILED and name == "render_workflow_output":
+                env.terminal = st
+                return
+            if env.terminal == S.SUCCEEDED and st == S.FAILED and name == "request_workflow_status" and env.calls[-1][1] == S.FAILED:
+                # the lifecycle allows an explicit failed request on a succeeded workflow
+                # (the very transition output rendering uses)
+                env.terminal = st
+                return
+            self.fail(env, "terminal-changed", "C04 terminal status %s changed to %s after %s" % (env.terminal, st, name), was=env.terminal, now=st)
+
+    def on_offer(self, env, tasks):
+        if env.terminal is None or not tasks:
+            return
+        orc = getattr(env, "orc", None)
+        cleanup = set(orc.cleanup) if orc is not None else set()
+        for t in tasks:
+            if env.terminal == S.FAILED and t["id"] in cleanup:
+                count(env, "c04_cleanup_offer")
+                continue
+            self.fail(env, "offer-after-terminal", "C04 %s offered although the workflow is %s (documented clean-up tasks: %s)" % (t["id"], env.terminal, sorted(cleanup)), task=t["id"], status=env.terminal)
+
+    def on_request(self, env, kind, rejected, before):
+        if rejected is None:
+            return
+        count(env, "c04_rejected_request")
+        after = env.snapshot()
+        if after != before:
+            a, b = json.loads(before), json.loads(after)
+            diff = [k for k in a if a[k] != b.get(k)]
+            self.fail(env, "rejected-request-effect", "C04 request %s was rejected (%s) but changed the persisted %s" % (kind, type(rejected).__name__, diff), kind=kind, status=env.status())
+
+
+class C09Pause(Monitor):
+    """While pausing/paused nothing is offered; paused exactly when the last in-flight
+    action has reported."""
+
+    prop = "C09"
+
+    def on_offer(self, env, tasks):
+        st = env.status()
+        if st in (S.PAUSING, S.PAUSED):
+            count(env, "c09_offer_checked")
+            if tasks:
+                self.fail(env, "offer-while-paused", "C09 %s offered while the workflow reports %s" % ([t["id"] for t in tasks], st), task=tasks[0]["id"], status=st)
+
+    def after_call(self, env, name):
+        st = env.status()
+        if name == "get_next_tasks":
+            return
+        if env.pause_req and not env.cancel_req and not env.inflight and not env.held:
+            count(env, "c09_last_reported")
+            if st not in COMPLETED and st != S.PAUSED:
+                self.fail(env, "not-paused-at-rest", "C09 pause requested and the last in-flight action has reported, yet the workflow reports %s" % st, status=st)
+        if st == S.PAUSED and env.inflight:
+            self.fail(env, "paused-with-inflight", "C09 paused while %s still in flight" % [a.label() for a in env.inflight])
+
+
+class C10Cancel(Monitor):
+    prop = "C10"
+
+    def on_offer(self, env, tasks):
+        if env.cancel_req:
+            count(env, "c10_offer_checked")
+            if tasks:
+                what = [(t["id"], [a.get("item_id") for a in t.get("actions", [])]) for t in tasks]
+                self.fail(env, "offer-after-cancel", "C10 %s offered after cancellation was requested" % what, task=tasks[0]["id"])
+
+    def after_call(self, env, name):
+        if not env.cancel_req or name == "get_next_tasks":
+            return
+        st = env.status()
+        if env.inflight:
+            if st != S.CANCELING:
+                self.fail(env, "not-canceling", "C10 cancel requested, %s still in flight, yet the workflow reports %s" % ([a.label() for a in env.inflight], st), status=st)
+        else:
+            count(env, "c10_last_reported")
+            if st != S.CANCELED:
+                self.fail(env, "not-canceled", "C10 cancel requested and the last in-flight action has reported, yet the workflow reports %s (errors: %s)" % (st, [e["message"] for e in env.c.errors]), status=st)
+
+    def on_end(self, env, complete):
+        if not env.cancel_req or not complete:
+            return
+        st = env.status()
+        if st != S.CANCELED:
+            self.fail(env, "end-not-canceled", "C10 canceled workflow ended %s" % st, status=st)
+        out = env.c.get_workflow_output() or {}
+        last = None
+        for a in env.started:
+            last = a
+        # variables the last-reporting execution had received must still be rendered
+        if env.script:
+            lab, visit = env.script[-1][0], env.script[-1][1]
+            for a in env.started:
+                if a.label() == lab and a.visit == visit:
+                    last = a
+        if last is not None and last.ctx:
+            for v in env.wf.output:
+                if v in last.ctx and last.ctx[v] is not None:
+                    count(env, "c10_output_checked")
+                    if out.get(v) is None:
+                        rec = env.c.get_task_state_entry(last.task, last.route) or {}
+                        self.fail(
+                            env, "output-not-rendered",
+                            "C10 output variable %s was published (%r) before cancellation (requested while %s) but the canceled workflow rendered %r; last-reporting execution %s flagged terminal: %s"
+                            % (v, last.ctx[v], env.cancel_from, out, last.label(), bool(rec.get("term"))),
+                            cancel_from=env.cancel_from, last_flagged_terminal=bool(rec.get("term")),
+                        )
